@@ -100,6 +100,9 @@ func UnmarshalOrdered(data []byte) (*orderedmap.OrderedMap[string, any], error) 
 	if err != nil {
 		return nil, err
 	}
+	if _, err := dec.Token(); err != io.EOF {
+		return nil, fmt.Errorf("unexpected data after the JSON value")
+	}
 	m, ok := val.(*orderedmap.OrderedMap[string, any])
 	if !ok {
 		return nil, fmt.Errorf("log line is not a JSON object")
@@ -130,7 +133,9 @@ func parseValue(dec *json.Decoder) (any, error) {
 				}
 				m.Set(key, val)
 			}
-			_, _ = dec.Token() // consume '}'
+			if _, err := dec.Token(); err != nil { // consume '}'
+				return nil, err
+			}
 			return m, nil
 		case '[':
 			var arr []any
@@ -141,7 +146,9 @@ func parseValue(dec *json.Decoder) (any, error) {
 				}
 				arr = append(arr, val)
 			}
-			_, _ = dec.Token() // consume ']'
+			if _, err := dec.Token(); err != nil { // consume ']'
+				return nil, err
+			}
 			return arr, nil
 		}
 	default:
